@@ -545,25 +545,43 @@ print("RESULT " + json.dumps({"exit": int(s.exit_code), "tasks": [[getattr(t, "b
 
 
 def check_select_e2e(acc: Acc, cases):
-    """End to end: generated modules (independent tasks, optional markers), real `pytask.build(expression=…, marker_expression=…)`
-    in a fresh process; the executed tasks must be exactly those for which every given expression is true."""
+    """End to end: generated modules (independent tasks, optional markers, optionally a task generator whose children only come
+    into existence during the build), real `pytask.build(expression=…, marker_expression=…)` in a fresh process; the executed
+    tasks must be exactly those for which every given expression is true — generated children included (a child is judged
+    only if its generator ran)."""
     import shutil
     import tempfile
+
+    def body(func, indent):
+        pad = " " * indent
+        return [f"{pad}def {func}():", f"{pad}    _log({func!r})", f"{pad}    return {func!r}"]
 
     for case in cases:
         root = Path(tempfile.mkdtemp(prefix="pv-c16s-"))
         try:
-            lines = ["from pathlib import Path", "import pytask", "from pytask import task", "HERE = Path(__file__).parent", ""]
+            lines = ["from pathlib import Path", "import pytask", "from pytask import task", "HERE = Path(__file__).parent", "",
+                     "def _log(name):", "    with (HERE / 'log.txt').open('a') as f:", "        f.write(name + '\\n')", ""]
+            gen = case.get("generator")
             for sp in case["tasks"]:
                 for m in sp["markers"]:
                     lines.append(f"@pytask.mark.{m}")
                 lines.append(f"@task(produces=HERE / {sp['func'] + '.txt'!r})")
-                lines.append(f"def {sp['func']}():")
-                lines.append(f"    with (HERE / 'log.txt').open('a') as f:\n        f.write({sp['func']!r} + '\\n')")
-                lines.append(f"    return {sp['func']!r}")
-                lines.append("")
+                lines += body(sp["func"], 0) + [""]
+            if gen:
+                for m in gen["markers"]:
+                    lines.append(f"@pytask.mark.{m}")
+                lines.append("@task(is_generator=True)")
+                lines.append(f"def {gen['func']}():")
+                lines.append(f"    _log({gen['func']!r})")
+                for ch in gen["children"]:
+                    for m in ch["markers"]:
+                        lines.append(f"    @pytask.mark.{m}")
+                    lines.append(f"    @task(produces=HERE / {ch['func'] + '.txt'!r})")
+                    lines += body(ch["func"], 4) + [""]
             (root / f"task_{case['mod']}.py").write_text("\n".join(lines))
             (root / "pyproject.toml").write_text("[tool.pytask.ini_options]\nmarkers = {" + ", ".join(f'{m} = "m"' for m in case["all_markers"]) + "}\n")
+            static = list(case["tasks"]) + ([{"func": gen["func"], "markers": gen["markers"]}] if gen else [])
+            children = gen["children"] if gen else []
             for kexpr, mexpr in case["queries"]:
                 acc.n += 1
                 for f in root.glob("*.txt"):
@@ -583,32 +601,39 @@ def check_select_e2e(acc: Acc, cases):
                     continue
                 r = json.loads(res[-1][7:])
                 by_func = {b: (n, attrs) for b, n, attrs in r["tasks"]}
-                funcs = [sp["func"] for sp in case["tasks"]]
-                want = None
-                if set(by_func) == set(funcs):
-                    specs = [{"name": by_func[f][0], "attrs": by_func[f][1], "markers": sp["markers"]} for f, sp in zip(funcs, case["tasks"])]
-                    want = orc.project_selection(kexpr, mexpr, specs)
-                elif r["exit"] == 0 or r["tasks"]:
-                    acc.selfcheck.append(f"select-e2e: collected {sorted(by_func)}, generated {funcs}")
-                    continue
-                else:
-                    # nothing was collected because the build failed before: only legitimate for a malformed expression
-                    want = orc.project_selection(kexpr, mexpr, [{"name": f, "attrs": [], "markers": sp["markers"]} for f, sp in zip(funcs, case["tasks"])])
-                    if want != "parse-error":
-                        acc.selfcheck.append(f"select-e2e: nothing collected for -k {kexpr!r} -m {mexpr!r}: {p.stdout[-300:]}")
-                        continue
-                acc.bump("select-e2e=" + ("error" if isinstance(want, str) else "none" if not want else "all" if len(want) == len(funcs) else "some"))
-                if isinstance(want, str):
+
+                def spec(sp):
+                    # every task created with @task carries the marker `task`
+                    n, attrs = by_func.get(sp["func"], (sp["func"], []))
+                    return {"name": n, "attrs": attrs, "markers": [*sp["markers"], "task"], "func": sp["func"]}
+
+                sspecs = [spec(sp) for sp in static]
+                want_s = orc.project_selection(kexpr, mexpr, sspecs)
+                if isinstance(want_s, str):
                     bad = None if (r["exit"] != 0 and not r["order"]) else f"exit code {r['exit']}, executed {r['order']} although an expression is malformed"
+                    acc.bump("select-e2e=error")
                 else:
+                    if not {sp["func"] for sp in static} <= set(by_func):
+                        acc.selfcheck.append(f"select-e2e: collected {sorted(by_func)}, generated {[sp['func'] for sp in static]}: {p.stdout[-300:]}")
+                        continue
+                    gen_runs = bool(gen) and (len(static) - 1) in want_s
+                    allspecs = sspecs + ([spec(ch) for ch in children] if gen_runs else [])
+                    want = orc.project_selection(kexpr, mexpr, allspecs)
+                    exp = sorted(allspecs[i]["func"] for i in want)
                     ran = sorted(r["order"])
-                    exp = sorted(funcs[i] for i in want)
                     bad = None if (ran == exp and r["exit"] == 0) else f"exit code {r['exit']}, executed {ran}, the formulas select {exp}"
-                    acc.hashes += h8(json.dumps([case["tasks"], kexpr, mexpr], sort_keys=True))
+                    if gen_runs:
+                        nsel = sum(1 for i in want if i >= len(sspecs))
+                        acc.bump("select-e2e=generated-children:" + ("none" if nsel == 0 else "all" if nsel == len(children) else "some"))
+                    else:
+                        acc.bump("select-e2e=" + ("none" if not want else "all" if len(want) == len(allspecs) else "some"))
+                    acc.hashes += h8(json.dumps([case["tasks"], gen, kexpr, mexpr], sort_keys=True))
                 if bad:
                     acc.nviol += 1
                     if len(acc.violations) < KEEP:
-                        acc.violations.append({"what": f"select-e2e: project {[(sp['func'], sp['markers']) for sp in case['tasks']]} built with -k {kexpr!r} -m {mexpr!r}: {bad}",
+                        shown = [(sp["func"], sp["markers"]) for sp in case["tasks"]]
+                        g = f" + generator {gen['func']} {gen['markers']} creating {[(c['func'], c['markers']) for c in children]}" if gen else ""
+                        acc.violations.append({"what": f"select-e2e: project {shown}{g} built with -k {kexpr!r} -m {mexpr!r}: {bad}",
                                                "replay": {"layer": "select-e2e", "case": dict(case, queries=[[kexpr, mexpr]])}})
         finally:
             shutil.rmtree(root, ignore_errors=True)
